@@ -1,45 +1,398 @@
+//! C03 code -> spec driver (robustness): mutated encodings through the real parsers.
+//!
+//! usage: c03_driver <cases.ndjson> <trace.ndjson>
+//! Input: the "case" records (with the spec-chosen mutations `muts`) and "hcase" records (block
+//! headers) printed by TLC.  For every case one valid encoding is produced (txgen + the real
+//! writer; its layout is the token sequence, so token boundaries are known) and from it:
+//!   id        the encoding itself
+//!   trunc     cut at every token boundary and at a seeded position inside every token
+//!   extend    one and three extra bytes
+//!   flip      one byte changed (first byte and a seeded byte of every token)
+//!   <m>       every mutation the specification lists for the count / amount / constant tokens
+//! Each mutant is parsed (catch_unwind); what is accepted is re-serialised and parsed again.
+//! One trace record per mutant; TLC validates the trace against spec/Codec/Trace_Codec.tla.
+//!
+//! A record can be replayed alone: {"T":"replay","case":{..},"mutant":{"m","t","at","bytes"}}.
+use h_tx::c03_common::*;
 use h_tx::txgen::*;
-use zcash_primitives::transaction::{Transaction, TxVersion};
+use h_tx::util::{NdjsonWriter, guarded, quiet_panics, read_ndjson, seed_from_env};
+use serde_json::{Value, json};
+use zcash_primitives::block::BlockHeader;
+use zcash_primitives::transaction::Transaction;
 use zcash_protocol::consensus::BranchId;
 
-fn main() {
-    let mut g = TxGen::new(1);
-    // (1) V6 / Nu6_3 with one Orchard action; rewrite the branch id to Nu6_2
-    let mut s = Shape::new(TxVersion::V6, BranchId::Nu6_3);
-    s.n_orchard = 1;
-    let tx = g.tx(&s).unwrap();
-    let mut buf = vec![];
-    tx.write(&mut buf).unwrap();
-    for b in [BranchId::Nu5, BranchId::Nu6_2, BranchId::Canopy] {
-        let mut m = buf.clone();
-        m[8..12].copy_from_slice(&u32::from(b).to_le_bytes());
-        match Transaction::read(&m[..], BranchId::Nu6_3) {
-            Ok(t) => {
-                let mut w = vec![];
-                println!("V6 branch {:?}: accepted; flags {:?}; bundle version {}; write -> {:?}", b, t.orchard_bundle().unwrap().flags(), bundle_version_name(t.orchard_bundle().unwrap().bundle_version()), t.write(&mut w).map(|_| w.len()));
-            }
-            Err(e) => println!("V6 branch {:?}: rejected {e}", b),
+fn mix(mut z: u64) -> u64 {
+    z = z.wrapping_add(0x9E37_79B9_7F4A_7C15);
+    z = (z ^ (z >> 30)).wrapping_mul(0xBF58_476D_1CE4_E5B9);
+    z = (z ^ (z >> 27)).wrapping_mul(0x94D0_49BB_1331_11EB);
+    z ^ (z >> 31)
+}
+struct Rnd(u64);
+impl Rnd {
+    fn next(&mut self) -> u64 {
+        self.0 = mix(self.0);
+        self.0
+    }
+    fn below(&mut self, n: usize) -> usize {
+        (self.next() % n.max(1) as u64) as usize
+    }
+    fn bytes(&mut self, n: usize) -> Vec<u8> {
+        let mut v = Vec::with_capacity(n + 8);
+        while v.len() < n {
+            v.extend_from_slice(&self.next().to_le_bytes());
+        }
+        v.truncate(n);
+        v
+    }
+}
+
+fn case_salt(seed: u64, id: u64, sample: u64) -> u64 {
+    mix(mix(seed ^ 0xC03C03) ^ mix(id.wrapping_mul(1_000_003) ^ (sample << 48)))
+}
+
+/// A mutant of a base encoding: name, token it touches (0-based index or None), the edit.
+struct Mutant {
+    m: String,
+    t: Option<usize>,
+    /// replace bytes[at .. at + cut] by `ins`; for trunc: keep bytes[..at]
+    at: usize,
+    cut: usize,
+    ins: Vec<u8>,
+    spec_rej: bool,
+}
+
+fn apply(base: &[u8], mu: &Mutant) -> Vec<u8> {
+    if mu.m == "trunc" {
+        return base[..mu.at].to_vec();
+    }
+    let mut v = base[..mu.at].to_vec();
+    v.extend_from_slice(&mu.ins);
+    v.extend_from_slice(&base[mu.at + mu.cut..]);
+    v
+}
+
+fn mutants(tokens: &[Token], muts: &Value, base: &[u8], r: &mut Rnd, dense: bool) -> Vec<Mutant> {
+    let offs = offsets(tokens);
+    let mut out = vec![Mutant { m: "id".into(), t: None, at: 0, cut: 0, ins: vec![], spec_rej: false }];
+    // truncations: every token boundary, and inside every token
+    for (j, t) in tokens.iter().enumerate() {
+        out.push(Mutant { m: "trunc".into(), t: Some(j), at: offs[j], cut: 0, ins: vec![], spec_rej: true });
+        if t.len >= 2 {
+            out.push(Mutant { m: "trunc".into(), t: Some(j), at: offs[j] + 1 + r.below(t.len - 1), cut: 0, ins: vec![], spec_rej: true });
+        }
+        if dense && t.len >= 3 {
+            out.push(Mutant { m: "trunc".into(), t: Some(j), at: offs[j] + t.len - 1, cut: 0, ins: vec![], spec_rej: true });
         }
     }
-    // (2) V4 with no Sapling and valueBalance != 0
-    let mut s = Shape::new(TxVersion::V4, BranchId::Sapling);
-    s.n_vin = 1;
-    let tx = g.tx(&s).unwrap();
-    let mut buf = vec![];
-    tx.write(&mut buf).unwrap();
-    // find valueBalance: after header(8), vin, vout(1), lock(4), expiry(4)
-    let n = buf.len();
-    // layout tail: vb(8) nSp(1) nOut(1) nJS(1)
-    let off = n - 11;
-    let mut m = buf.clone();
-    m[off] = 5;
-    match Transaction::read(&m[..], BranchId::Sapling) {
-        Ok(t) => {
+    // extensions
+    out.push(Mutant { m: "extend".into(), t: None, at: base.len(), cut: 0, ins: r.bytes(1), spec_rej: false });
+    out.push(Mutant { m: "extend".into(), t: None, at: base.len(), cut: 0, ins: vec![0x00, 0xFD, 0xFF], spec_rej: false });
+    // single-byte changes
+    for (j, t) in tokens.iter().enumerate() {
+        if t.len == 0 {
+            continue;
+        }
+        let mut pos = vec![offs[j]];
+        if t.len > 1 {
+            pos.push(offs[j] + 1 + r.below(t.len - 1));
+        }
+        if dense && t.len > 2 {
+            pos.push(offs[j] + t.len - 1);
+        }
+        for p in pos {
+            let mask = 1u8 << r.below(8);
+            let mask = if r.below(3) == 0 { (r.next() as u8) | 1 } else { mask };
+            out.push(Mutant { m: "flip".into(), t: Some(j), at: p, cut: 1, ins: vec![base[p] ^ mask], spec_rej: false });
+        }
+    }
+    // the specification's mutations
+    for mu in muts.as_array().map(|a| &a[..]).unwrap_or(&[]) {
+        let j = usize_of(&mu["t"]) - 1;
+        out.push(Mutant {
+            m: mu["m"].as_str().unwrap().to_string(),
+            t: Some(j),
+            at: offs[j],
+            cut: tokens[j].len,
+            ins: bytes_of(&mu["bytes"]),
+            spec_rej: mu["rej"].as_bool().unwrap(),
+        });
+    }
+    out
+}
+
+fn tok_fields(tokens: &[Token], t: Option<usize>) -> Value {
+    match t {
+        None => json!({"tk": "-", "tn": "-", "sg": "-", "tv": 0, "tval": []}),
+        Some(j) => {
+            let t = &tokens[j];
+            json!({"tk": t.k.to_string(), "tn": t.n, "sg": t.sg.to_string(), "tv": t.v, "tval": t.val})
+        }
+    }
+}
+
+/// True iff `a` and `b` have equal length and differ only inside one window of 8 bytes in which `b` is zero.
+fn differs_in_zeroed_amount(a: &[u8], b: &[u8]) -> bool {
+    if a.len() != b.len() {
+        return false;
+    }
+    let d: Vec<usize> = (0..a.len()).filter(|i| a[*i] != b[*i]).collect();
+    match (d.first(), d.last()) {
+        (Some(f), Some(l)) => l - f < 8 && d.iter().all(|i| b[*i] == 0),
+        _ => false,
+    }
+}
+
+struct TxBase {
+    bytes: Vec<u8>,
+    dump: Vec<(String, Vec<u8>)>,
+}
+
+fn run_tx_mutant(base: &TxBase, branch: BranchId, input: &[u8]) -> Value {
+    match parse(input, branch) {
+        Parsed::Panic(p) => json!({"out": "panic", "detail": p, "consumed": 0, "wrote": false, "reser_len": 0, "reser_eq": false, "reparse": "-",
+                                    "same_as_base": false, "pv": "-", "pb": "-", "porch": false, "psap": false, "dvb": false}),
+        Parsed::Rejected(_) => json!({"out": "rej", "consumed": 0, "wrote": false, "reser_len": 0, "reser_eq": false, "reparse": "-",
+                                       "same_as_base": false, "pv": "-", "pb": "-", "porch": false, "psap": false, "dvb": false}),
+        Parsed::Accepted(tx, consumed) => {
+            let d = dump(&tx, true);
+            let same_as_base = d == base.dump;
+            let (pv, pb) = (version_name(tx.version()), branch_name(tx.consensus_branch_id()));
+            let (porch, psap) = (tx.orchard_bundle().is_some(), tx.sapling_bundle().is_some());
+            let (wrote, reser_len, reser_eq, reparse, dvb) = match serialise(&tx) {
+                Err(_) => (false, 0, false, "-".to_string(), false),
+                Ok(w) => {
+                    let eq = consumed <= input.len() && w[..] == input[..consumed];
+                    let dvb = !eq && consumed <= input.len() && differs_in_zeroed_amount(&input[..consumed], &w);
+                    let rp = match parse(&w, branch) {
+                        Parsed::Panic(_) => "panic",
+                        Parsed::Rejected(_) => "rej",
+                        Parsed::Accepted(t2, n2) => {
+                            let d2 = dump(&t2, true);
+                            if n2 != w.len() {
+                                "short"
+                            } else if d2 == d {
+                                "same"
+                            } else if dump(&t2, false) == dump(&tx, false) {
+                                "same_fields"
+                            } else {
+                                "diff"
+                            }
+                        }
+                    };
+                    (true, w.len(), eq, rp.to_string(), dvb)
+                }
+            };
+            json!({"out": "acc", "consumed": consumed, "wrote": wrote, "reser_len": reser_len, "reser_eq": reser_eq, "reparse": reparse,
+                   "same_as_base": same_as_base, "pv": pv, "pb": pb, "porch": porch, "psap": psap, "dvb": dvb})
+        }
+    }
+}
+
+fn header_fields(h: &BlockHeader) -> Vec<u8> {
+    let mut v = vec![];
+    v.extend_from_slice(&h.version.to_le_bytes());
+    v.extend_from_slice(&h.prev_block.0);
+    v.extend_from_slice(&h.merkle_root);
+    v.extend_from_slice(&h.final_sapling_root);
+    v.extend_from_slice(&h.time.to_le_bytes());
+    v.extend_from_slice(&h.bits.to_le_bytes());
+    v.extend_from_slice(&h.nonce);
+    v.extend_from_slice(&(h.solution.len() as u64).to_le_bytes());
+    v.extend_from_slice(&h.solution);
+    v.extend_from_slice(&h.hash().0);
+    v
+}
+
+fn read_header(input: &[u8]) -> Result<Result<(BlockHeader, usize), String>, String> {
+    guarded(|| {
+        let mut r: &[u8] = input;
+        BlockHeader::read(&mut r).map(|h| (h, input.len() - r.len())).map_err(|e| e.to_string())
+    })
+}
+
+fn run_header_mutant(base_fields: &[u8], input: &[u8]) -> Value {
+    let none = |out: &str| json!({"out": out, "consumed": 0, "wrote": false, "reser_len": 0, "reser_eq": false, "reparse": "-",
+                                   "same_as_base": false, "pv": "-", "pb": "-", "porch": false, "psap": false, "dvb": false});
+    match read_header(input) {
+        Err(_) => none("panic"),
+        Ok(Err(_)) => none("rej"),
+        Ok(Ok((h, consumed))) => {
+            let f = header_fields(&h);
             let mut w = vec![];
-            t.write(&mut w).unwrap();
-            let t2 = Transaction::read(&w[..], BranchId::Sapling).unwrap();
-            println!("V4 dangling valueBalance: accepted; reser == input: {}; txid same after reparse: {}", w == m, t.txid() == t2.txid());
+            let wrote = matches!(guarded(|| h.write(&mut w)), Ok(Ok(())));
+            let eq = wrote && consumed <= input.len() && w[..] == input[..consumed];
+            let hash_ok = consumed <= input.len() && h.hash().0 == sha256d(&input[..consumed]);
+            let reparse = if !wrote {
+                "-"
+            } else {
+                match read_header(&w) {
+                    Err(_) => "panic",
+                    Ok(Err(_)) => "rej",
+                    Ok(Ok((h2, n2))) => {
+                        if n2 != w.len() { "short" } else if header_fields(&h2) == f && hash_ok { "same" } else { "diff" }
+                    }
+                }
+            };
+            json!({"out": "acc", "consumed": consumed, "wrote": wrote, "reser_len": w.len(), "reser_eq": eq, "reparse": reparse,
+                   "same_as_base": f == base_fields, "pv": "hdr", "pb": "-", "porch": false, "psap": false, "dvb": false})
         }
-        Err(e) => println!("V4 dangling vb: rejected {e}"),
     }
+}
+
+fn merge(mut a: Value, b: Value) -> Value {
+    for (k, v) in b.as_object().unwrap() {
+        a[k] = v.clone();
+    }
+    a
+}
+
+fn main() {
+    let args: Vec<String> = std::env::args().collect();
+    let cases = read_ndjson(&args[1]);
+    let mut w = NdjsonWriter::create(&args[2]);
+    let seed = seed_from_env();
+    let dense = std::env::var("C03_DENSE").is_ok();
+    quiet_panics();
+    let g = TxGen::new(seed);
+    let (mut n_base, mut n_acc, mut n_rej, mut n_panic) = (0usize, 0usize, 0usize, 0usize);
+    let mut per_class = std::collections::BTreeMap::<String, (usize, usize)>::new();
+    let mut first_panic: Option<Value> = None;
+    for c in &cases {
+        let kind = c["T"].as_str().unwrap();
+        if kind == "replay" {
+            // one recorded mutant, alone
+            let case = &c["case"];
+            let mu = &c["mutant"];
+            let tokens = tokens_from_json(&case["tokens"]);
+            let m = Mutant { m: mu["m"].as_str().unwrap().into(), t: mu["t"].as_u64().map(|x| x as usize), at: usize_of(&mu["at"]), cut: usize_of(&mu["cut"]), ins: bytes_of(&mu["ins"]), spec_rej: mu["rej"].as_bool().unwrap_or(false) };
+            let rec = if case["T"] == "hcase" {
+                let (bytes, fields) = header_base(case, case_salt(c["seed"].as_u64().unwrap(), 800_000 + case["solLen"].as_u64().unwrap(), 0));
+                let input = apply(&bytes, &m);
+                merge(json!({"c": 0, "ver": "hdr", "br": "-", "m": m.m, "mb": m.ins, "len": input.len(), "base": bytes.len(), "hex": hex::encode(&input[..input.len().min(4096)])}),
+                      merge(tok_fields(&tokens, m.t), run_header_mutant(&fields, &input)))
+            } else {
+                let g = TxGen::new(c["seed"].as_u64().unwrap());
+                let (base, shape) = tx_base(&g, case, case_salt(c["seed"].as_u64().unwrap(), case["id"].as_u64().unwrap(), 0)).expect("base encoding");
+                let input = apply(&base.bytes, &m);
+                merge(json!({"c": case["id"], "ver": case["shape"]["ver"], "br": case["shape"]["branch"], "m": m.m, "mb": m.ins, "len": input.len(), "base": base.bytes.len(), "hex": hex::encode(&input[..input.len().min(4096)])}),
+                      merge(tok_fields(&tokens, m.t), run_tx_mutant(&base, shape.branch, &input)))
+            };
+            w.emit(&rec);
+            continue;
+        }
+        if kind != "case" && kind != "hcase" {
+            continue;
+        }
+        let tokens = tokens_from_json(&c["tokens"]);
+        if kind == "case" && !c["v"].as_bool().unwrap_or(false) {
+            continue;
+        }
+        n_base += 1;
+        let id = c.get("id").and_then(|v| v.as_u64()).unwrap_or(0);
+        let mut r = Rnd(case_salt(seed, id ^ 0xF00D, 7));
+        if kind == "hcase" {
+            let (bytes, fields) = header_base(c, case_salt(seed, 800_000 + c["solLen"].as_u64().unwrap(), 0));
+            for mu in mutants(&tokens, &c["muts"], &bytes, &mut r, true) {
+                let input = apply(&bytes, &mu);
+                let res = run_header_mutant(&fields, &input);
+                let rec = merge(
+                    json!({"c": c["solLen"], "ver": "hdr", "br": "-", "m": mu.m, "mb": mu.ins, "len": input.len(), "base": bytes.len(),
+                           "at": mu.at, "cut": mu.cut, "t": mu.t, "srej": mu.spec_rej}),
+                    merge(tok_fields(&tokens, mu.t), res),
+                );
+                tally(&rec, &mut n_acc, &mut n_rej, &mut n_panic, &mut per_class, &mut first_panic);
+                w.emit(&rec);
+            }
+            continue;
+        }
+        let (base, shape) = match tx_base(&g, c, case_salt(seed, id, 0)) {
+            Ok(b) => b,
+            Err(e) => {
+                // the base encoding does not follow the layout: reported by the replay direction; nothing to mutate
+                w.emit(&json!({"c": id, "ver": c["shape"]["ver"], "br": c["shape"]["branch"], "m": "nobase", "mb": [], "len": 0, "base": 0, "at": 0, "cut": 0, "t": null, "srej": false,
+                               "tk": "-", "tn": e, "sg": "-", "tv": 0, "tval": [], "out": "rej", "consumed": 0, "wrote": false, "reser_len": 0, "reser_eq": false,
+                               "reparse": "-", "same_as_base": false, "pv": "-", "pb": "-", "porch": false, "psap": false, "dvb": false}));
+                continue;
+            }
+        };
+        for mu in mutants(&tokens, &c["muts"], &base.bytes, &mut r, dense) {
+            let input = apply(&base.bytes, &mu);
+            let res = run_tx_mutant(&base, shape.branch, &input);
+            let rec = merge(
+                json!({"c": id, "ver": c["shape"]["ver"], "br": c["shape"]["branch"], "m": mu.m, "mb": mu.ins, "len": input.len(), "base": base.bytes.len(),
+                       "at": mu.at, "cut": mu.cut, "t": mu.t, "srej": mu.spec_rej}),
+                merge(tok_fields(&tokens, mu.t), res),
+            );
+            tally(&rec, &mut n_acc, &mut n_rej, &mut n_panic, &mut per_class, &mut first_panic);
+            w.emit(&rec);
+        }
+    }
+    let n = w.finish();
+    let _ = Transaction::read(&[0u8; 0][..], BranchId::Sprout);
+    println!(
+        "{}",
+        json!({"records": n, "bases": n_base, "accepted": n_acc, "rejected": n_rej, "panics": n_panic, "first_panic": first_panic,
+               "per_class": per_class.iter().map(|(k, (a, r))| json!([k, a, r])).collect::<Vec<_>>()})
+    );
+}
+
+fn tally(rec: &Value, n_acc: &mut usize, n_rej: &mut usize, n_panic: &mut usize, per: &mut std::collections::BTreeMap<String, (usize, usize)>, first_panic: &mut Option<Value>) {
+    let m = rec["m"].as_str().unwrap();
+    let class = if m.starts_with("noncanon") { "noncanon" } else if m.starts_with("amt_") { "amount" } else if m.starts_with("branch_") || m.starts_with("vgid_") || m.starts_with("header_") { "constant" } else { m };
+    let e = per.entry(class.to_string()).or_insert((0, 0));
+    match rec["out"].as_str().unwrap() {
+        "acc" => {
+            *n_acc += 1;
+            e.0 += 1;
+        }
+        "rej" => {
+            *n_rej += 1;
+            e.1 += 1;
+        }
+        _ => {
+            *n_panic += 1;
+            if first_panic.is_none() {
+                *first_panic = Some(rec.clone());
+            }
+        }
+    }
+}
+
+fn tx_base(g: &TxGen, c: &Value, salt: u64) -> Result<(TxBase, Shape), String> {
+    let shape = shape_from_json(&c["shape"]);
+    let tokens = tokens_from_json(&c["tokens"]);
+    let parts = g.parts_with(&shape, salt).map_err(|e| format!("generator: {e}"))?;
+    let tx = guarded(|| parts.freeze()).map_err(|p| format!("panic: {p}"))?.map_err(|e| format!("freeze: {e}"))?;
+    let bytes = serialise(&tx)?;
+    let bad = walk(&tokens, usize_of(&c["total"]), &bytes, &tx);
+    if !bad.is_empty() {
+        return Err(format!("layout: {}", bad[0]));
+    }
+    let parsed = match parse(&bytes, shape.branch) {
+        Parsed::Accepted(t, _) => t,
+        _ => return Err("the valid encoding is not accepted".into()),
+    };
+    Ok((TxBase { dump: dump(&parsed, true), bytes }, shape))
+}
+
+fn header_base(c: &Value, salt: u64) -> (Vec<u8>, Vec<u8>) {
+    use zcash_primitives::block::{BlockHash, BlockHeaderData};
+    let mut r = Rnd(salt);
+    let sol_len = usize_of(&c["solLen"]);
+    let mut arr = |n: usize| r.bytes(n);
+    let data = BlockHeaderData {
+        version: 4,
+        prev_block: BlockHash(arr(32).try_into().unwrap()),
+        merkle_root: arr(32).try_into().unwrap(),
+        final_sapling_root: arr(32).try_into().unwrap(),
+        time: 1_700_000_000,
+        bits: 0x1f07_ffff,
+        nonce: arr(32).try_into().unwrap(),
+        solution: arr(sol_len),
+    };
+    let h = data.freeze().expect("freeze header");
+    let mut b = vec![];
+    h.write(&mut b).expect("write header");
+    let f = header_fields(&h);
+    (b, f)
 }
